@@ -371,3 +371,264 @@ fn find_files(dir: &Path, name: &str, out: &mut Vec<std::path::PathBuf>) {
         }
     }
 }
+
+// ------------------------------------------------------------------------
+// C20 / C19 under a pseudo-terminal
+
+/// Run n2 with stdin/stdout/stderr on a pty of the given size; returns (exit, signal, bytes shown).
+fn run_on_pty(env: &RealEnv, dir: &Path, args: &[String], cols: u16, rows: u16, resize_to: Option<u16>, timeout_s: u64) -> (Option<i32>, Option<i32>, Vec<u8>, bool) {
+    use std::os::fd::FromRawFd;
+    use std::os::unix::process::ExitStatusExt;
+    let mut master: libc::c_int = 0;
+    let mut slave: libc::c_int = 0;
+    let ws = libc::winsize { ws_row: rows, ws_col: cols, ws_xpixel: 0, ws_ypixel: 0 };
+    let rc = unsafe { libc::openpty(&mut master, &mut slave, std::ptr::null_mut(), std::ptr::null(), &ws) };
+    if rc != 0 {
+        return (None, None, b"openpty failed".to_vec(), true);
+    }
+    unsafe {
+        libc::fcntl(master, libc::F_SETFD, libc::FD_CLOEXEC);
+    }
+    let mk = |fd: i32| unsafe { std::process::Stdio::from_raw_fd(libc::dup(fd)) };
+    let mut cmd = std::process::Command::new(&env.n2);
+    cmd.args(args).current_dir(dir).stdin(mk(slave)).stdout(mk(slave)).stderr(mk(slave)).env("RUST_BACKTRACE", "0");
+    cmd.env("ASAN_OPTIONS", "detect_leaks=0:exitcode=98:abort_on_error=0").env("TSAN_OPTIONS", "exitcode=66:halt_on_error=1");
+    unsafe {
+        use std::os::unix::process::CommandExt;
+        cmd.pre_exec(|| {
+            libc::setsid();
+            Ok(())
+        });
+    }
+    let mut child = match cmd.spawn() {
+        Ok(c) => c,
+        Err(e) => return (None, None, format!("spawn: {}", e).into_bytes(), true),
+    };
+    unsafe { libc::close(slave) };
+    // non-blocking reads from the master
+    unsafe {
+        let fl = libc::fcntl(master, libc::F_GETFL);
+        libc::fcntl(master, libc::F_SETFL, fl | libc::O_NONBLOCK);
+    }
+    let mut shown = Vec::new();
+    let t0 = std::time::Instant::now();
+    let mut resized = false;
+    let mut timed_out = false;
+    let mut status = None;
+    let mut buf = [0u8; 65536];
+    loop {
+        let n = unsafe { libc::read(master, buf.as_mut_ptr() as *mut libc::c_void, buf.len()) };
+        if n > 0 {
+            shown.extend_from_slice(&buf[..n as usize]);
+            continue;
+        }
+        if status.is_some() {
+            break;
+        }
+        if let Ok(Some(st)) = child.try_wait() {
+            status = Some(st);
+            continue; // drain once more
+        }
+        if let (Some(c), false) = (resize_to, resized) {
+            if t0.elapsed().as_millis() > 120 {
+                let w2 = libc::winsize { ws_row: rows, ws_col: c, ws_xpixel: 0, ws_ypixel: 0 };
+                unsafe { libc::ioctl(master, libc::TIOCSWINSZ, &w2) };
+                resized = true;
+            }
+        }
+        if t0.elapsed().as_secs() > timeout_s {
+            timed_out = true;
+            unsafe { libc::kill(child.id() as i32, libc::SIGKILL) };
+            status = child.wait().ok();
+            break;
+        }
+        std::thread::sleep(std::time::Duration::from_millis(2));
+    }
+    unsafe { libc::close(master) };
+    (status.and_then(|s| s.code()), status.and_then(|s| s.signal()), shown, timed_out)
+}
+
+/// Remove ANSI escape sequences and carriage returns.
+fn strip_ansi(b: &[u8]) -> String {
+    let mut out = Vec::new();
+    let mut i = 0;
+    while i < b.len() {
+        if b[i] == 0x1b && i + 1 < b.len() && b[i + 1] == b'[' {
+            i += 2;
+            while i < b.len() && !(0x40..=0x7e).contains(&b[i]) {
+                i += 1;
+            }
+            i += 1;
+        } else if b[i] == b'\r' {
+            i += 1;
+        } else {
+            out.push(b[i]);
+            i += 1;
+        }
+    }
+    String::from_utf8_lossy(&out).into_owned()
+}
+
+fn weird_text(rng: &mut Rng, n: usize) -> String {
+    let pool = ["a", "b", " ", "é", "ビ", "ル", "ド", "中", "😀", "-", "/", "ß", "\u{301}", "x", "0"];
+    (0..n).map(|_| *rng.pick(&pool[..])).collect::<String>().trim().to_string()
+}
+
+pub fn c20_pty_case(ctx: &Ctx, env: &RealEnv, dir: &Path, case: u64, seed: u64, rep: &mut Report) {
+    let mut rng = Rng::new(seed);
+    let ntasks = rng.range(3, if ctx.thorough() { 30 } else { 10 });
+    let long_running = ctx.thorough() && rng.chance(1, 4);
+    let mut manifest = String::new();
+    let mut names = Vec::new();
+    for i in 0..ntasks {
+        let dlen = *rng.pick(&[3usize, 20, 60, 100, 200, 400]);
+        let desc = format!("D{} {}", i, weird_text(&mut rng, dlen));
+        let line_len = *rng.pick(&[0usize, 10, 80, 300]);
+        let last_line = weird_text(&mut rng, line_len);
+        let raw = if rng.chance(1, 4) { "\\377\\303" } else { "" };
+        let sleep = if long_running && i == 0 { "3.3".to_string() } else { format!("0.{:02}", rng.below(35)) };
+        // the command prints a progress line, waits, then writes its output
+        let cmd = format!("printf '%s{}\\n' '{}'; sleep {}; echo done > o{}", raw, last_line.replace('\'', ""), sleep, i);
+        manifest.push_str(&format!("rule r{}\n  command = {}\n", i, cmd.replace('$', "$$")));
+        if rng.chance(3, 4) {
+            manifest.push_str(&format!("  description = {}\n", desc.replace('$', "$$")));
+        }
+        manifest.push_str(&format!("build o{}: r{}\n", i, i));
+        names.push(format!("o{}", i));
+    }
+    let fail_one = rng.chance(1, 4);
+    if fail_one {
+        manifest.push_str("rule bad\n  command = echo ビルド失敗 😀; exit 3\n  description = failing ビ\nbuild obad: bad\n");
+    }
+    let cols: u16 = match rng.below(8) {
+        0 => rng.range(1, 9) as u16,
+        1 => 10,
+        2 => 11,
+        3 => 40,
+        4 => 80,
+        _ => rng.range(10, 300) as u16,
+    };
+    let j = *rng.pick(&[1usize, 3, 8]);
+    let args: Vec<String> = vec!["-j".into(), j.to_string(), "-k".into(), "100".into()];
+    // twin without a terminal
+    let twin = dir.with_file_name("twin");
+    let mut results = Vec::new();
+    let mut resized_to: Option<u16> = None;
+    for tty in [false, true] {
+        let d = if tty { dir.to_path_buf() } else { twin.clone() };
+        let _ = std::fs::create_dir_all(&d);
+        clear_dir(&d);
+        std::fs::write(d.join("build.ninja"), &manifest).unwrap();
+        if tty {
+            let resize = if rng.chance(1, 3) { Some(rng.range(10, 200) as u16) } else { None };
+            resized_to = resize;
+            let (exit, sig, shown, to) = run_on_pty(env, &d, &args, cols, 24, resize, 60);
+            results.push((exit, sig, strip_ansi(&shown), shown, to));
+        } else {
+            let w = crate::sim::World::new(d.clone(), Project { manifest: "build.ninja".into(), ..Default::default() });
+            let inv = RInv { j: Some(j), k: Some(100), timeout_s: 60, ..Default::default() };
+            let o = run_real(env, &w, &inv);
+            results.push((o.exit, o.signal, String::from_utf8_lossy(&o.stdout).into_owned(), o.stdout.clone(), o.timed_out));
+        }
+        rep.evaluations += 1;
+    }
+    let built = |d: &Path| -> Vec<String> { names.iter().filter(|n| d.join(n).exists()).cloned().collect() };
+    let (plain, pty) = (&results[0], &results[1]);
+    let mk = || {
+        J::obj()
+            .with("case", J::i(case))
+            .with("cols", J::i(cols))
+            .with("j", J::i(j))
+            .with("manifest", J::s(&manifest))
+            .with("pty_exit", J::s(format!("{:?}/{:?}", pty.0, pty.1)))
+            .with("plain_exit", J::s(format!("{:?}/{:?}", plain.0, plain.1)))
+            .with("pty_tail", J::s(pty.2.chars().rev().take(600).collect::<String>().chars().rev().collect::<String>()))
+    };
+    rep.count("pty_builds", 1);
+    if pty.4 || plain.4 {
+        rep.inconclusive.push(format!("case {}: timeout (pty={}, plain={})", case, pty.4, plain.4));
+        return;
+    }
+    if pty.2.contains("AddressSanitizer") || pty.2.contains("ThreadSanitizer") || pty.0 == Some(98) || pty.0 == Some(66) {
+        rep.violation("sanitizer-report:pty", &pty.2.chars().take(1500).collect::<String>(), mk());
+        return;
+    }
+    if pty.0 != plain.0 || pty.1 != plain.1 {
+        let sig = if pty.2.contains("panicked") { "pty-panic" } else { "pty-exit-differs" };
+        rep.violation(sig, &format!("under a {}-column terminal n2 ended {:?}/{:?}, without a terminal {:?}/{:?}", cols, pty.0, pty.1, plain.0, plain.1), mk());
+    }
+    let (b1, b2) = (built(&twin), built(dir));
+    if b1 != b2 {
+        rep.violation("pty-outputs-differ", &format!("outputs built without a terminal {:?}, under the terminal {:?}", b1, b2), mk());
+    }
+    let last = |s: &str| s.lines().filter(|l| l.starts_with("n2: ")).last().unwrap_or("").to_string();
+    if last(&pty.2) != last(&plain.2) {
+        rep.violation("pty-summary-differs", &format!("summary {:?} vs {:?}", last(&pty.2), last(&plain.2)), mk());
+    }
+    // progress lines: bar width and counts
+    let total = ntasks + fail_one as usize;
+    for l in pty.2.lines() {
+        if let (Some(a), Some(b)) = (l.find('['), l.find("] ")) {
+            if b > a && l[b..].contains(" done, ") {
+                rep.count("progress_lines_seen", 1);
+                let bar = &l[a + 1..b];
+                if bar.len() != 40 {
+                    rep.violation("bar-width", &format!("progress bar {:?} is {} wide", bar, bar.len()), mk());
+                }
+                // "d/t done"
+                if let Some(frac) = l[b + 2..].split(" done").next() {
+                    if let Some((d, t)) = frac.split_once('/') {
+                        if let (Ok(d), Ok(t)) = (d.trim().parse::<usize>(), t.trim().parse::<usize>()) {
+                            if t != total || d > t {
+                                rep.violation("progress-counts", &format!("progress line {:?} but {} commands are wanted", l, total), mk());
+                            }
+                        }
+                    }
+                }
+            }
+        }
+        // task lines must fit the terminal (width below 10 falls back to 80)
+        let w1 = if cols < 10 { 80 } else { cols as usize };
+        let width = w1.max(resized_to.unwrap_or(0) as usize);
+        if (l.starts_with('D') || l.starts_with("printf")) && l.len() > width.max(12) && l.ends_with("...") {
+            rep.violation("task-line-too-wide", &format!("{:?} is {} bytes on a {}-column terminal", l, l.len(), width), mk());
+        }
+    }
+    rep.nontrivial.insert(fnv(manifest.as_bytes()) ^ cols as u64);
+    rep.sample(|| J::obj().with("case", J::i(case)).with("cols", J::i(cols)).with("tasks", J::i(ntasks)).with("pty_output_bytes", J::i(pty.3.len())));
+    let _ = std::fs::remove_dir_all(&twin);
+}
+
+/// C06: deep dependency chains through the real binary (`-t restat`, so that no command runs).
+pub fn c06_deep_chain_case(ctx: &Ctx, env: &RealEnv, dir: &Path, case: u64, seed: u64, rep: &mut Report) {
+    let mut rng = Rng::new(seed);
+    let depth = if ctx.thorough() && case % 3 == 0 { 60_000 } else { *rng.pick(&[500usize, 1000, 2000]) };
+    clear_dir(dir);
+    let mut m = String::from("rule t\n  command = touch $out\n");
+    m.push_str("build o0: t\n");
+    for i in 1..depth {
+        m.push_str(&format!("build o{}: t o{}\n", i, i - 1));
+    }
+    std::fs::write(dir.join("build.ninja"), &m).unwrap();
+    for i in 0..depth {
+        std::fs::write(dir.join(format!("o{}", i)), b"").unwrap();
+    }
+    let w = crate::sim::World::new(dir.to_path_buf(), Project { manifest: "build.ninja".into(), ..Default::default() });
+    let inv = RInv { adopt: true, targets: vec![format!("o{}", depth - 1)], timeout_s: 120, ..Default::default() };
+    let out = run_real(env, &w, &inv);
+    rep.evaluations += 1;
+    rep.count("deep_chain_cases", 1);
+    rep.max("max_chain_depth", depth as u64);
+    let mk = || J::obj().with("case", J::i(case)).with("chain_depth", J::i(depth)).with("trace", out.trace_json()).with("stderr", J::bytes(&out.stderr[..out.stderr.len().min(400)]));
+    if out.timed_out {
+        rep.inconclusive.push(format!("case {}: chain of {} timed out", case, depth));
+        return;
+    }
+    if out.exit != Some(0) {
+        let se = String::from_utf8_lossy(&out.stderr);
+        let sig = if se.contains("stack overflow") || out.signal == Some(libc::SIGSEGV) || out.signal == Some(libc::SIGABRT) { "stack-overflow-deep-chain" } else { "deep-chain-failed" };
+        rep.violation(sig, &format!("dependency chain of {} steps: n2 -t restat ended with exit {:?} signal {:?}: {}", depth, out.exit, out.signal, se.chars().take(200).collect::<String>()), mk());
+    } else {
+        rep.nontrivial.insert(fnv(b"chain") ^ depth as u64);
+    }
+}
